@@ -11,7 +11,8 @@ for T in "${TAGS[@]}"; do
   SCR=$(mktemp -d /var/tmp/vf-regr-XXXXXX)
   mkdir -p "$SCR/tree" && cp -r /repo/gearpy "$SCR/tree/" && find "$SCR/tree" -name __pycache__ -type d -exec rm -rf {} + 2>/dev/null
   if ! ( cd "$SCR/tree" && git init -q . && git apply --whitespace=nowarn "$SD/patch.diff" ) 2>/dev/null; then echo "$T apply=FAILED"; BAD=1; rm -rf "$SCR"; continue; fi
-  CHECKS=$(python3 -c "import json,sys; m=json.load(open('$SD/meta.json')); print(' '.join(c['property'] for c in m['confirmed_here']['checks'] if c['exit']==1) or m['property'])")
+  CHECKS=$(python3 -c "import json,sys; m=json.load(open('$SD/meta.json')); print(' '.join(c['property'] for c in m['confirmed_here']['checks'] if c['exit']==1))")
+  if [ -z "$CHECKS" ]; then echo "$T recorded-as-not-caught (see DESIGN 4.2, 'not pursued')"; continue; fi
   RES=""
   OK=0
   for P in $CHECKS; do
